@@ -179,6 +179,12 @@ fn transform(
     operands: &mut Vec<Coor4D>,
     ctx: &Plain,
 ) -> Result<usize, geodesy::Error> {
+    // Nothing read since the last batch (empty input, or a number
+    // of lines which is a multiple of the batch size)
+    if operands.is_empty() {
+        return Ok(0);
+    }
+
     let output_dimension = options.dimension.unwrap_or(number_of_dimensions_in_input);
 
     // When roundtripping, we must keep a copy of the input to be able
